@@ -672,7 +672,7 @@ theorem C16_e2e_sni_invalid_fails (cf : Conf) (st : St) (r : Req)
       rw [hc]
       have := C16_sni_invalid_fails cf.srvName r.sni cf.strict hne himm hbad
       rcases htr with htr | htr <;>
-        simp [htr, clientIDFromCtx, mkCtxConn, fromSNI, clientServerName, hn, this]
+        simp [htr, clientIDFromCtx, mkCtxConn, Conf.prep, prepareTLS, fromSNI, clientServerName, hn, this]
     rw [this]; exact Or.inr rfl
 
 /-- The request record carries the peer address, the EDNS options, the
@@ -732,11 +732,54 @@ theorem C16_e2e_strict_rejects (cf : Conf) (st : St) (r : Req)
       rw [hc]
       have := C16_strict_rejects cf.srvName r.sni hne himm
       rcases htr with htr | htr <;>
-        simp [htr, clientIDFromCtx, mkCtxConn, fromSNI, clientServerName, hn, hs, this]
+        simp [htr, clientIDFromCtx, mkCtxConn, Conf.prep, prepareTLS, fromSNI, clientServerName, hn, hs, this]
     rw [this]; exact Or.inr rfl
 
+/-- **The strictness used for a request is the configured one**, for every
+certificate: `prepareTLS` derives the handshake names from the certificate (DNS
+SANs, else the common name, even an empty one) but never rewrites
+`strict_sni_check`; whatever the certificate carries — a matching name, another
+name, a wildcard, a common name only, IP addresses only, nothing — the context
+handed to `clientIDFromDNSContext` has `strict` = the configuration's, and a
+handshake is refused only under the configured strictness. -/
+theorem C16_strict_is_configured_strict (cf : Conf) (r : Req) :
+    (prepareTLS cf.strict cf.cert).strict = cf.strict ∧
+      (∀ c, front cf r = .ok c → c.strict = cf.strict) ∧
+      (front cf r = .error .hs → cf.strict = true) := by
+  refine ⟨rfl, ?_, fun h => (front_hs cf r h).1⟩
+  intro c h
+  unfold front at h
+  cases ht : r.tr <;> simp only [ht] at h
+  · cases h; rfl
+  · cases h; rfl
+  · rw [frontTLS_ok cf r _ c h]; rfl
+  · rw [frontTLS_ok cf r _ c h]; rfl
+  · obtain ⟨u, _, _, hc, _⟩ := frontHTTP_ok cf r c h; rw [hc]; rfl
+  · obtain ⟨u, _, _, hc, _⟩ := frontHTTP_ok cf r c h; rw [hc]; rfl
+  · obtain ⟨u, _, _, hc, _⟩ := frontHTTP_ok cf r c h; rw [hc]; rfl
+  · cases h; rfl
+
+/-- With strict checking and a certificate that has no DNS name and no common
+name (an IP-only certificate) every DoT / DoQ handshake is refused — strict
+checking is not silently given up. -/
+theorem C16_strict_ip_only_cert_refuses (cf : Conf) (st : St) (r : Req)
+    (hs : cf.strict = true) (hd : cf.cert.dnsNames = []) (hcn : cf.cert.cn = [])
+    (htr : r.tr = .dot ∨ r.tr = .doq) (hv : r.sniValidHost = true → r.sni ≠ []) :
+    (step cf st r).2 = .hs := by
+  have hf : front cf r = .error .hs := by
+    unfold front
+    have : frontTLS cf r = fun _ => .error .hs := by
+      funext p
+      unfold frontTLS
+      by_cases hvv : r.sniValidHost = true
+      · have hne := hv hvv
+        simp [Conf.prep, prepareTLS, hs, hd, hcn, anyNameMatches, isWildcard, hvv, hne]
+      · simp [Conf.prep, prepareTLS, hs, hd, hcn, anyNameMatches, hvv]
+    rcases htr with htr | htr <;> simp [htr, this]
+  rw [step_error cf st r _ hf]
+
 -- Non-vacuity: concrete requests through the whole model.
-def exConf : Conf := { srvName := exHost, strict := true, certNames := [exHost, [42, 46] ++ exHost], plainDoH := false, urlStrictColons := false }
+def exConf : Conf := { srvName := exHost, strict := true, cert := { dnsNames := [exHost, [42, 46] ++ exHost], cn := [], hasIP := false }, plainDoH := false, urlStrictColons := false }
 def exReq (tr : Tr) (sni target : Bytes) : Req :=
   { tr := tr, sni := sni, sniValidHost := true, method := .get, target := target, host := [120],
     hostSplit := some [120], dnsOK := true, ipLitOK := true, peer := [], edns := [], qname := [], hdrs := [] }
@@ -753,6 +796,11 @@ example : (step exConf {} (exReq .h2 exHost (slash :: dnsQuery ++ [slash, 37, 12
 example : (step exConf {} (exReq .dot ([97, 46, 98] ++ dot :: exHost) [])).2 = .servfail := by decide
 -- DoT with SNI xexample.org: the handshake is refused
 example : (step exConf {} (exReq .dot (120 :: exHost) [])).2 = .hs := by decide
+-- an IP-only certificate under strict checking: DoT is refused, DoH (handshake by the web server) with
+-- a server name outside the domain is answered SERVFAIL — never served as nobody
+def exConfIP : Conf := { exConf with cert := { dnsNames := [], cn := [], hasIP := true } }
+example : (step exConfIP {} (exReq .dot ([99, 108, 105] ++ dot :: exHost) [])).2 = .hs := by decide
+example : (step exConfIP {} (exReq .h1 (120 :: exHost) (slash :: dnsQuery ++ [63, 100]))).2 = .servfail := by decide
 -- absolute-form with an escaped non-ASCII authority, GET http://%ff/.. : the mux redirects (307);
 -- http://%41/dns-query (escape of an ASCII byte in the host) is a parse error (400)
 example : (step exConf {} (exReq .h1 exHost [104, 116, 116, 112, 58, 47, 47, 37, 102, 102, 47, 46, 46])).2 = .http 307 := by decide
@@ -816,5 +864,14 @@ theorem C16_gen_validated_returns :
     (∀ r ∈ returns, r.2 = 0 ∨ r.2 = 1 ∨ r.2 = 3) ∧ (∃ r ∈ returns, r.2 = 1) ∧
       (∀ f ∈ idFuncs, f ∈ closure) ∧ (∀ r ∈ returns, r.1 ∈ idFuncs) ∧
       1 ∈ validateCallees ∧ validateUnconditional = 1 := by decide +kernel
+
+/-- `TLSConfig.StrictSNICheck` — the flag `clientIDFromDNSContext` passes as
+`strict` and `onGetCertificate` consults — is only ever set by a composite
+literal where the configuration is loaded (package home); nothing in
+dnsforward (not `prepareTLS`, not a request path) assigns it or takes its
+address.  This is what makes the model's `prepareTLS` (flag copied through,
+`C16_strict_is_configured_strict`) the code's. -/
+theorem C16_gen_strict_flag_never_rewritten :
+    (∀ w ∈ strictFlagWrites, w.1 ≠ 3 ∧ w.2 = 1) ∧ (1, 1) ∈ strictFlagWrites := by decide +kernel
 
 end AGH.C16
